@@ -241,8 +241,12 @@ func startPeers(rfPort, abmfPort int, pemF, keyF string) error {
 		origin = "client"
 	}
 	settings := &sm.Settings{OriginHost: datatype.DiameterIdentity(origin), OriginRealm: "go-diameter", VendorID: 13, ProductName: "go-diameter", FirmwareRevision: 1}
-	rmux := sm.New(settings)
-	rmux.HandleFunc("SUR", func(c diam.Conn, m *diam.Message) {
+	// every other connection of a peer is served by a second instance that announces another Origin-Host (two
+	// instances behind one address answering in turn)
+	other := *settings
+	other.OriginHost = datatype.DiameterIdentity(origin + "-2")
+	rmux, rmux2 := sm.New(settings), sm.New(&other)
+	surHandler := func(c diam.Conn, m *diam.Message) {
 		var sur cdt.ServiceUsageRequest
 		if m.Unmarshal(&sur) != nil || sur.SubscriptionId == nil {
 			return
@@ -302,9 +306,11 @@ func startPeers(rfPort, abmfPort int, pemF, keyF string) error {
 			ex.answered, ex.werr = time.Now(), err
 			p.mu.Unlock()
 		})
-	})
-	amux := sm.New(settings)
-	amux.HandleFunc("CCR", func(c diam.Conn, m *diam.Message) {
+	}
+	rmux.HandleFunc("SUR", surHandler)
+	rmux2.HandleFunc("SUR", surHandler)
+	amux, amux2 := sm.New(settings), sm.New(&other)
+	ccrHandler := func(c diam.Conn, m *diam.Message) {
 		var ccr cdt.AccountDebitRequest
 		if m.Unmarshal(&ccr) != nil || ccr.SubscriptionId == nil {
 			return
@@ -350,20 +356,40 @@ func startPeers(rfPort, abmfPort int, pemF, keyF string) error {
 			ex.answered, ex.werr = time.Now(), err
 			p.mu.Unlock()
 		})
-	})
+	}
+	amux.HandleFunc("CCR", ccrHandler)
+	amux2.HandleFunc("CCR", ccrHandler)
 	cert, err := tls.LoadX509KeyPair(pemF, keyF)
 	if err != nil {
 		return err
 	}
-	for port, mux := range map[int]diam.Handler{rfPort: rmux, abmfPort: amux} {
+	for port, muxes := range map[int][2]diam.Handler{rfPort: {rmux, rmux2}, abmfPort: {amux, amux2}} {
 		l, err := net.Listen("tcp", fmt.Sprintf("127.0.0.1:%d", port))
 		if err != nil {
 			return err
 		}
-		srv := &diam.Server{Handler: mux}
+		// the accepted connections go to the two instances in turn
+		a, b := &chanListener{Listener: l, ch: make(chan net.Conn, 16)}, &chanListener{Listener: l, ch: make(chan net.Conn, 16)}
 		go func(l net.Listener) {
-			_ = srv.Serve(tls.NewListener(countingListener{l}, &tls.Config{Certificates: []tls.Certificate{cert}}))
+			cl := countingListener{l}
+			for n := 0; ; n++ {
+				c, err := cl.Accept()
+				if err != nil {
+					return
+				}
+				if n%2 == 0 {
+					a.ch <- c
+				} else {
+					b.ch <- c
+				}
+			}
 		}(l)
+		for i, cl := range []*chanListener{a, b} {
+			srv := &diam.Server{Handler: muxes[i]}
+			go func(cl *chanListener) {
+				_ = srv.Serve(tls.NewListener(cl, &tls.Config{Certificates: []tls.Certificate{cert}}))
+			}(cl)
+		}
 	}
 	return nil
 }
@@ -373,6 +399,15 @@ var (
 	openConns    int64 // accepted and not yet closed, both peers
 	setupDelayMs int64 // applied to connections accepted from now on: the peer's side of the TLS handshake starts that late
 )
+
+// chanListener hands out the connections a dispatcher puts into its channel.
+type chanListener struct {
+	net.Listener
+	ch chan net.Conn
+}
+
+func (l *chanListener) Accept() (net.Conn, error) { return <-l.ch, nil }
+func (l *chanListener) Close() error              { return nil }
 
 type countingListener struct{ net.Listener }
 
